@@ -81,6 +81,12 @@ CLAIMED.update({
             "criteria use only ref/* semantics; PDA instances within closure limit 60; completeness of checkers is not asserted here (C13)"),
 })
 
+CLAIMED.update({
+    "C13": ("composition generator -> printer -> parser -> checker exactly as notebooks/make_notebook.py does it; required outcome: first stdout line OK; shipped notebooks executed in-process",
+            "generated reference objects for every exercise type (for-language x6, nfa2dfa, dfa2regexp, products, complement, reverse, minimal x2, CYK, derivations x3, Chomsky phases 1-5) + all 19 shipped notebooks",
+            "domain restricted to what the text formats can express (see assumptions in the evidence); make_notebook.py imported from the working tree"),
+})
+
 NOT_YET = {
 }
 
